@@ -13,10 +13,12 @@ import common as C  # noqa: E402
 import dates as D   # noqa: E402
 from parallel import driver_parallel  # noqa: E402
 
-GEN = ['DateK', 'Calendar', 'DateLogic']
+GEN = ['DateK', 'Calendar', 'DateLogic', 'Wiring']
 PROPS = ['FinVerif.Props.C16', 'FinVerif.Props.C16b', 'FinVerif.Props.C16c', 'FinVerif.Props.C16d', 'FinVerif.Props.C16e',
-         'FinVerif.Props.C16f', 'FinVerif.Props.C16g', 'FinVerif.Props.C16h', 'FinVerif.Props.C16i']
+         'FinVerif.Props.C16f', 'FinVerif.Props.C16g', 'FinVerif.Props.C16h', 'FinVerif.Props.C16i',
+         'FinVerif.Props.C16w']
 DRIVERS = ['FinVerif.Driver.C16']
+WIRING_DRIVER = 'FinVerif.Driver.C16w'   # evaluates Spec/Wiring's rules on Gen/Wiring (names the sites behind a failing decide)
 SPEC_DRIVERS = ['FinVerif.Driver.C16Spec']
 
 RULE = ('effective/termination pairs 1 day..50 years apart drawn from dates biased to month ends, 29 Feb, weekends and '
@@ -90,7 +92,12 @@ def classify(op, impl, ideal, strict, adj_eff, adj_term_moves=False):
 
 
 def run(ctx):
-    drivers_ok = C.lean_stage(ctx, GEN, PROPS, DRIVERS + SPEC_DRIVERS)
+    merge_local_findings(ctx)
+    all_ok = C.lean_stage(ctx, GEN, PROPS, DRIVERS + SPEC_DRIVERS + [WIRING_DRIVER], extra_files=['FinVerif/Spec/Wiring.lean'])
+    # the wiring driver failing to build (table not generated) must not switch off the schedule model's correspondences
+    unbuilt = [m for b in ctx.broken if b.startswith('model: the executable model') for m in b.split(': ')[-1].split(', ')]
+    drivers_ok = ctx.model_ok = all_ok or not any(m in unbuilt for m in DRIVERS + SPEC_DRIVERS)
+    ctx.wiring_driver_ok = all_ok or WIRING_DRIVER not in unbuilt
     C.import_financepy()
     from financepy.utils.date import Date
     from financepy.utils.calendar import Calendar, CalendarTypes, BusDayAdjustTypes, DateGenRuleTypes
@@ -201,8 +208,10 @@ def run(ctx):
     ctx.cov['components']['Schedule.generate'].update({'not_acceptable': nb_s, 'disagree_model': nb_m})
 
     inheritance(ctx, rng, drivers_ok)
+    wiring(ctx)
 
     ctx.assumptions += [
+        'wiring (C16w): the extractor (tools/py2lean/registry/wiring.py) classifies an argument as `param p` only when it is the constructor parameter itself or `self.x` whose only binding in the class is `self.x = p` in __init__; call sites reached through aliases of the callee names (`S = Schedule; S(...)`) are not seen — the textual search for `Schedule(` on every run bounds what can be missed to such aliases',
         'the ideal schedule (FinVerif/Spec/Schedule.lean) is my reading of the ISDA roll rule: rolls computed from the anchor, interior dates adjusted, effective date never adjusted, termination adjusted iff requested',
         'first_dt / next_to_last_dt are documented as unimplemented and are not exercised',
     ]
@@ -511,9 +520,219 @@ def inheritance_more(ctx, rng, drivers_ok=True):
     ctx.cov['components']['inheritance (CDS, cap/floor, FRN)'].update({'cds_disagree_model': nb_m})
 
 
+# ----------------------------------------------------------------------------------------------- wiring (C16w)
+def merge_local_findings(ctx):
+    """findings/C16.json is the per-property source of known_findings.json (tools/mkfindings.py concatenates them);
+    ids listed there and not yet merged are honoured here, so that the check of this clone and of the merged tree agree."""
+    path = os.path.join(C.VERIF, 'findings', 'C16.json')
+    if os.path.exists(path):
+        have = {k['id'] for k in ctx.known}
+        for k in json.load(open(path)):
+            if k.get('property') == 'C16' and k['id'] not in have:
+                ctx.known.append(k)
+                if k.get('status', 'open') == 'open':
+                    ctx.known_ids.add(k['id'])
+
+
+def textual_sites(names):
+    """plain textual search, independent of `ast`: every line of every .py under financepy/ (comment tail cut at `#`)
+    containing `<name>(` not preceded by an identifier character or a dot.  -> sorted list of 'file:line'"""
+    import re
+    repo = os.environ.get('FINVERIF_REPO', '/repo')
+    pat = re.compile(r'(?<![A-Za-z0-9_.])(?:' + '|'.join(names) + r')\(')
+    out = []
+    for dp, dns, fns in os.walk(os.path.join(repo, 'financepy')):
+        for fn in fns:
+            if fn.endswith('.py'):
+                full = os.path.join(dp, fn)
+                with open(full, encoding='utf-8') as f:
+                    for i, line in enumerate(f, 1):
+                        for _ in pat.finditer(line.split('#', 1)[0]):
+                            out.append(f'{os.path.relpath(full, repo)}:{i}')
+    return sorted(out)
+
+
+WIRING_FINDING = {('BondAnnuity', 'bd_type'): 'C16/annuity-ignores-bd-dg', ('BondAnnuity', 'dg_type'): 'C16/annuity-ignores-bd-dg'}
+
+
+def wiring_recipes():
+    """class name -> (roles its constructor takes, builder(conv) that constructs the product and triggers its schedule
+    generation).  conv: dict e, t (dates), f, f2 (frequencies), dc, dc2, cal, bd, dg, eom."""
+    from financepy.utils.global_types import SwapTypes, FinCapFloorTypes, OptionTypes
+    from financepy.products.rates.swap_fixed_leg import SwapFixedLeg
+    from financepy.products.rates.swap_float_leg import SwapFloatLeg
+    from financepy.products.rates.ibor_swap import IborSwap
+    from financepy.products.rates.ibor_cap_floor import IborCapFloor
+    from financepy.products.bonds.bond import Bond
+    from financepy.products.bonds.bond_frn import BondFRN
+    from financepy.products.bonds.bond_annuity import BondAnnuity
+    from financepy.products.bonds.bond_mortgage import BondMortgage
+    from financepy.products.equity.equity_cliquet_option import EquityCliquetOption
+    R4 = ('freq_type', 'cal_type', 'bd_type', 'dg_type')
+    return {
+        'SwapFixedLeg': (R4 + ('end_of_month', 'dc_type'), lambda c: SwapFixedLeg(
+            c['e'], c['t'], SwapTypes.PAY, 0.03, c['f'], c['dc'], 1e6, 0.0, 0, c['cal'], c['bd'], c['dg'], c['eom'])),
+        'SwapFloatLeg': (R4 + ('end_of_month', 'dc_type'), lambda c: SwapFloatLeg(
+            c['e'], c['t'], SwapTypes.PAY, 0.0, c['f'], c['dc'], 1e6, 0.0, 0, c['cal'], c['bd'], c['dg'], c['eom'])),
+        'IborSwap': (('cal_type', 'bd_type', 'dg_type', 'two_legs'), lambda c: IborSwap(
+            c['e'], c['t'], SwapTypes.PAY, 0.03, c['f'], c['dc'], 1e6, 0.0, c['f2'], c['dc2'], c['cal'], c['bd'], c['dg'])),
+        'IborCapFloor': (R4 + ('dc_type',), lambda c: IborCapFloor(
+            c['e'], c['t'], FinCapFloorTypes.CAP, 0.03, None, c['f'], c['dc'], 1e6, c['cal'], c['bd'], c['dg'])._generate_dts()),
+        'Bond': (R4, lambda c: Bond(c['e'], c['t'], 0.05, c['f'], c['dc'], 0, c['cal'], c['bd'], c['dg'])),
+        'BondFRN': (('freq_type', 'cal_type'), lambda c: BondFRN(c['e'], c['t'], 0.01, c['f'], c['dc'], c['cal'])),
+        'BondAnnuity': (R4, lambda c: BondAnnuity(c['t'], 0.05, c['f'], c['cal'], c['bd'], c['dg'], c['dc'])
+                        .calculate_payments(c['e'], 1.0)),
+        'BondMortgage': (R4, lambda c: BondMortgage(c['e'], c['t'], 1e6, c['f'], c['cal'], c['bd'], c['dg'], c['dc'])),
+        'EquityCliquetOption': (R4, lambda c: EquityCliquetOption(
+            c['e'], c['t'], OptionTypes.EUROPEAN_CALL, c['f'], c['dc'], c['cal'], c['bd'], c['dg'])),
+    }
+
+
+def run_recipe(name, roles, build, conv):
+    """build the product with the conventions `conv` while recording every Schedule / DayCount constructed on the way;
+    -> list of (formal, expected, got) mismatches ([] = every convention arrived unchanged), number of Schedules seen, and
+    the exception that ended the construction if any (the spies record BEFORE delegating, so a wrongly wired argument that
+    makes Schedule raise is still seen)"""
+    import inspect
+    from financepy.utils.schedule import Schedule
+    from financepy.utils.day_count import DayCount
+    seen, seen_dc = [], []
+    o_s, o_d = Schedule.__init__, DayCount.__init__
+    sig = inspect.signature(o_s)
+
+    def spy_s(self, *a, **k):
+        b = sig.bind(self, *a, **k)
+        b.apply_defaults()
+        seen.append(dict(b.arguments))
+        return o_s(self, *a, **k)
+
+    def spy_d(self, dcc_type):
+        seen_dc.append(dcc_type)
+        return o_d(self, dcc_type)
+
+    Schedule.__init__, DayCount.__init__ = spy_s, spy_d
+    exc = None
+    try:
+        build(conv)
+    except Exception as ex:  # noqa: BLE001 — what was recorded before the failure is still judged
+        exc = ex
+    finally:
+        Schedule.__init__, DayCount.__init__ = o_s, o_d
+    bad = []
+    want = {'freq_type': conv['f'], 'cal_type': conv['cal'], 'bd_type': conv['bd'], 'dg_type': conv['dg'],
+            'end_of_month': conv['eom']}
+    for i, rec in enumerate(seen):
+        for r in roles:
+            if r in want and rec[r] != want[r]:
+                bad.append((r, str(want[r]), str(rec[r])))
+    if 'dc_type' in roles:
+        bad += [('dc_type', str(conv['dc']), str(x)) for x in seen_dc if x != conv['dc']]
+    if 'two_legs' in roles and exc is None:
+        if [rec['freq_type'] for rec in seen] != [conv['f'], conv['f2']]:
+            bad.append(('fixed/float freq_type', str([conv['f'], conv['f2']]), str([rec['freq_type'] for rec in seen])))
+        if seen_dc != [conv['dc'], conv['dc2']]:
+            bad.append(('fixed/float dc_type', str([conv['dc'], conv['dc2']]), str(seen_dc)))
+    return bad, len(seen), exc
+
+
+def wiring_conv(rng, t):
+    """conventions that all differ from the defaults of Schedule and of the products (so a dropped argument shows)"""
+    from financepy.utils.date import Date
+    from financepy.utils.calendar import CalendarTypes, BusDayAdjustTypes, DateGenRuleTypes
+    from financepy.utils.frequency import FrequencyTypes
+    from financepy.utils.day_count import DayCountTypes
+    months = rng.choice([12, 18, 24, 60, 37])
+    f, f2 = rng.sample([FrequencyTypes.SEMI_ANNUAL, FrequencyTypes.QUARTERLY, FrequencyTypes.MONTHLY], 2)
+    dc, dc2 = rng.sample([DayCountTypes.ACT_365F, DayCountTypes.THIRTY_360_BOND, DayCountTypes.ACT_ACT_ISDA,
+                          DayCountTypes.THIRTY_E_360_ISDA], 2)
+    cal = rng.choice([c for c in CalendarTypes if c not in (CalendarTypes.NONE, CalendarTypes.WEEKEND)])
+    bd = rng.choice([BusDayAdjustTypes.PRECEDING, BusDayAdjustTypes.MODIFIED_FOLLOWING, BusDayAdjustTypes.MODIFIED_PRECEDING,
+                     BusDayAdjustTypes.NONE])
+    return {'e': Date(*t), 't': Date(*own_add_months(t, months)), 'f': f, 'f2': f2, 'dc': dc, 'dc2': dc2, 'cal': cal,
+            'bd': bd, 'dg': DateGenRuleTypes.FORWARD, 'eom': True,
+            'text': {'effective': t, 'months': months, 'freq': f.name, 'freq2': f2.name, 'dc': dc.name, 'dc2': dc2.name,
+                     'cal': cal.name, 'bd': bd.name, 'dg': 'FORWARD', 'end_of_month': True}}
+
+
+def wiring(ctx):
+    """C16w on every run: (1) coverage — the table's Schedule/DayCount/Calendar sites are exactly the lines a plain
+    textual search finds; (2) the spec's verdict on the regenerated table, site by site (names the sites behind a
+    failing theorem of Props/C16w); (3) a dynamic oracle on the implementation: build each product with conventions that
+    all differ from the defaults and record the arguments that actually reach Schedule.__init__ / DayCount.__init__."""
+    from financepy.utils.error import FinError
+    fails, design_exc, static_failing_classes = [], set(), set()
+    if getattr(ctx, 'wiring_driver_ok', False):
+        try:
+            ans = C.run_driver('C16w', ['FAILS', 'SITES Schedule', 'SITES DayCount', 'SITES Calendar', 'EXC'])
+            fails = [x.split('|') for x in ans[0].split(' ; ') if x.strip()]
+            for callee, names, got in (('Schedule', ['Schedule', 'FinSchedule'], ans[1]), ('DayCount', ['DayCount'], ans[2]),
+                                       ('Calendar', ['Calendar'], ans[3])):
+                table, text = sorted(got.split()), textual_sites(names)
+                if table != text:
+                    ctx.broke(f'wiring coverage: the extracted {callee} call sites differ from a textual search for `{callee}(`: '
+                              f'only in the text {sorted(set(text) - set(table))[:5]}, only in the table {sorted(set(table) - set(text))[:5]}')
+                ctx.count(f'wiring: {callee} call sites (table = textual search)', len(table))
+            for e in ans[4].split(' ; '):
+                cm, rest = e.split('->')
+                design_exc.add((cm.split('.')[0], rest[rest.index('(') + 1:-1]))
+        except C.DriverError as ex:
+            ctx.broke('wiring driver failed: ' + str(ex)[:300])
+    else:
+        ctx.broke('wiring: the table of call sites could not be evaluated (Driver/C16w does not build)')
+    for rule, where, cls, method, callee, formal, how in fails:
+        static_failing_classes.add(cls)
+        ctx.broke(f'wiring rule `{rule}` fails at {where} {cls}.{method} -> {callee}({formal}): argument is {how}')
+    # dynamic oracle
+    recipes = wiring_recipes()
+    rng = ctx.rng('wiring')
+    n = 6 if ctx.quick() else 60
+    cnt = 0
+    for t in D.interesting_dates(rng, n, 1995, 2050):
+        conv = wiring_conv(rng, t)
+        for name, (roles, build) in recipes.items():
+            bad, nsched, exc = run_recipe(name, roles, build, conv)
+            if exc is not None and not bad:
+                if not isinstance(exc, FinError):
+                    ctx.notes.append(f'wiring oracle: {name} raised {type(exc).__name__} on {conv["text"]} (nothing mis-wired was recorded)')
+                continue
+            cnt += 1
+            if nsched == 0:
+                ctx.broke(f'wiring oracle: building {name} constructed no Schedule (recipe out of date)')
+            for formal, want, got in bad:
+                if (name, formal) in WIRING_FINDING or (name, formal) not in design_exc:
+                    ctx.violation(f'{name} does not hand its own `{formal}` to the Schedule/DayCount it builds',
+                                  dict(conv['text'], wiring_class=name, formal=formal, given=want, reached_callee=got),
+                                  finding=WIRING_FINDING.get((name, formal)), clause='wiring')
+    for cls in sorted(static_failing_classes - set(recipes)):
+        ctx.notes.append(f'wiring: no dynamic recipe for class {cls}; the static verdict above stands alone')
+    ctx.count('wiring: dynamic forwarding oracle (products built with non-default conventions)', cnt)
+
+
+def replay_wiring(ctx, path, case):
+    from financepy.utils.date import Date
+    from financepy.utils.calendar import CalendarTypes, BusDayAdjustTypes, DateGenRuleTypes
+    from financepy.utils.frequency import FrequencyTypes
+    from financepy.utils.day_count import DayCountTypes
+    t = tuple(case['effective'])
+    conv = {'e': Date(*t), 't': Date(*own_add_months(t, case['months'])), 'f': FrequencyTypes[case['freq']],
+            'f2': FrequencyTypes[case['freq2']], 'dc': DayCountTypes[case['dc']], 'dc2': DayCountTypes[case['dc2']],
+            'cal': CalendarTypes[case['cal']], 'bd': BusDayAdjustTypes[case['bd']], 'dg': DateGenRuleTypes[case['dg']],
+            'eom': case['end_of_month']}
+    roles, build = wiring_recipes()[case['wiring_class']]
+    bad, _, _ = run_recipe(case['wiring_class'], roles, build, conv)
+    bad = [b for b in bad if b[0] == case['formal']]
+    print(f"replay wiring {case['wiring_class']}({case}): mismatches {bad or 'none'}; acceptable={not bad}")
+    if bad:
+        print(f'VIOLATION property=C16 replay={path}')
+        return 1
+    return 0
+
+
 def replay(ctx, path):
     rp = json.load(open(path))
     v = rp.get('violation')
+    if v and v.get('case', {}).get('wiring_class'):
+        return replay_wiring(ctx, path, v['case'])
     if not v or 'op' not in v.get('case', {}):
         print('replay: no op in this file:', rp.get('broken'), v)
         return 1
